@@ -90,7 +90,7 @@ fn apply_and_check(opi: usize, form: u8, qa: crate::dynq::Q, qb: crate::dynq::Q)
     }
     // the result (unit and amount) depends on the operands only
     let h = crate::hist::mix(&[crate::hist::mix_str(&amt::key(qa.0)), crate::hist::mix_str(&amt::key(qb.0)), opi as u64, qa.1 as u64, qb.1 as u64, form as u64]);
-    if h % 4 == 0 {
+    if h % 16 == 0 {
         if let Some(m) = crate::hist::independent(h, &|| crate::hist::show_q((o.run)(form, qa, qb))) {
             return Err(Verdict::Fail(format!("{}: {}", note, m)));
         }
